@@ -51,6 +51,11 @@ def gen_jobs(rng, quick):
                 sp = ["DUBINS", "RS"][k % 2]; env = ["gap", "thin", "boxes3", "circles5"][k % 4] if not quick else ["gap", "thin"][k]
                 jobs.append("RUN %s %s %s %d %g %g %g %d %d %g" % (p, sp, env, rng.randint(0, 3), rng.choice([0, 0.3]), 0.01, 0.05, rng.randint(1, 10 ** 6),
                             20000 if p in ANYTIME else 200000, (0.4 if quick else 1.0) if p in ANYTIME else 2.0))
+        # planners that create states by stepping away from a tree node (SST's Monte-Carlo propagation): runs whose outcome does not depend on
+        # the generator's other choices, near the boundary of a small space
+        if p == "SST":
+            for sd in ((966870, 1), (7, 0), (11, 2), (23, 3), (5, 1), (42, 0)) if quick else [(1000 + z, z % 4) for z in range(40)]:
+                jobs.append("RUN SST R2 %s %d 0 0.01 0.05 %d 20000 %g" % ("gap" if sd[0] % 2 == 0 else "empty", sd[1], sd[0], 0.4 if quick else 1.0))
         # EIT* with non-default sparse collision checks on thin walls (documented, user-settable)
     for k in ([4] if quick else [2, 3, 4, 5]):
         for j in range(1 if quick else 10):
